@@ -60,6 +60,9 @@ def make_value(ctx, kind, name):
                 ctx.assume(n >= kw.get("minlen", 0))
                 shape.append(n)
         return fresh_array(ctx, name, tuple(shape), dtype)
+    if tag == "mat":
+        from .matrix import make_mat
+        return make_mat(ctx, name)
     if tag == "const":
         return kw["value"]
     if tag == "posfunc":
